@@ -29,7 +29,9 @@ fn main() {
         eprintln!("usage: cc-harness <replay|random|...> [options]");
         std::process::exit(2);
     }
-    quiet_panics();
+    if std::env::var("CC_PANIC_MSG").is_err() {
+        quiet_panics();
+    }
     let r = match args[1].as_str() {
         "replay" => {
             let ops = arg_val(&args, "--ops").expect("--ops");
@@ -68,6 +70,7 @@ fn main() {
                 })
         }
         "policy" => sat::policy::run(&args),
+        "uskmac" => sat::uskmac::run(&args),
         "pke" => sat::pke::run(&args),
         "wire" => sat::wire::run(&args),
         "features" => {
